@@ -91,7 +91,7 @@ func c17prop(r *simkit.Run) {
 	rt := r.T
 	n := rapid.IntRange(1, 20).Draw(rt, "buckets")
 	res := drawResolution(rt)
-	epoch := time.Unix(rapid.Int64Range(1_000_000_000, 2_000_000_000).Draw(rt, "epoch-s"), rapid.Int64Range(0, 999_999_999).Draw(rt, "epoch-ns")).UTC()
+	epoch := time.Unix(rapid.Int64Range(1_000_000_000, 4_400_000_000).Draw(rt, "epoch-s"), rapid.Int64Range(0, 999_999_999).Draw(rt, "epoch-ns")).UTC()
 	clock.SimFreeze(epoch)
 	defer clock.SimUnfreeze()
 	ratioMode := rapid.Bool().Draw(rt, "ratio-counter")
